@@ -39,7 +39,7 @@ def shards(tier):
 
 def params(tier):
     if tier == 'quick':
-        return {'modules': 12, 'values': 10}
+        return {'modules': 16, 'values': 10}
     return {'modules': 30, 'values': 20}
 
 
